@@ -157,6 +157,7 @@ End ==
      ELSE IF pend THEN Reject("end: policy was stable but convergence was not reported")
      ELSE IF budget > 0 /\ ~stopped THEN Reject("end: returned before the limit without policy stability")
      ELSE IF Ev.it # iter THEN Reject("end: reported iteration is not the number of iterations performed")
+     ELSE IF ~Ev.retok THEN Reject("end: the SolverState returned by solve() is not the state the solver holds (values, policy, iteration)")
      ELSE IF ~Ev.vok \/ Ev.v # V THEN Reject("end: returned values are not the evaluated values of the last iteration")
      ELSE IF ~Ev.polok \/ Ev.pick # pol THEN Reject("end: returned policy is not the policy of the last improvement")
      ELSE IF ~(\A s \in States(M) : \E a \in GreedySet(M, V, s) : a \in ToSet(Ev.pol[s]))
